@@ -58,7 +58,11 @@ def run_cli(argv, t, tz, order_key, hook=None, frac=0.0):
     try:
         with ET.ScandirOrder(order_key):
             try:
-                return gc.main(['gemato'] + argv)
+                import common
+                with common.watchdog(60):
+                    return gc.main(['gemato'] + argv)
+            except common.CaseTimeout:
+                return 'exception:DidNotTerminate'
             except SystemExit as e:
                 return e.code if isinstance(e.code, int) else 2
             except Exception as e:
